@@ -1,0 +1,36 @@
+//go:build verif
+
+// SPDX-License-Identifier: Apache-2.0
+
+package config
+
+import "regexp"
+
+// Add-only exports for the C17 differential check (tag verif): the package's own compiled
+// patterns and helpers, so that the hand-written scanners of the Coq model are validated
+// against exactly what Init uses.
+
+// VerifC17StrictKeys applies endpointURLKeysPattern as Init does for strict REST endpoints.
+func VerifC17StrictKeys(s string) []string {
+	return (&ServiceConfig{}).extractPlaceHoldersFromURLTemplate(s, endpointURLKeysPattern)
+}
+
+// VerifC17SimpleKeys applies simpleURLKeysPattern as Init does for backends / disable_rest.
+func VerifC17SimpleKeys(s string) []string {
+	return (&ServiceConfig{}).extractPlaceHoldersFromURLTemplate(s, simpleURLKeysPattern)
+}
+
+// VerifC17SeqParam reports sequentialParamsPattern.MatchString(s).
+func VerifC17SeqParam(s string) bool { return sequentialParamsPattern.MatchString(s) }
+
+// VerifC17InvalidPath reports whether invalidPattern matches s (as EndpointConfig.validate does).
+func VerifC17InvalidPath(s string) bool {
+	m, err := regexp.MatchString(invalidPattern, s)
+	return err != nil || m
+}
+
+// VerifC17UniqueOutput runs uniqueOutput on a copy of the list.
+func VerifC17UniqueOutput(l []string) ([]string, int) {
+	c := append([]string(nil), l...)
+	return uniqueOutput(c)
+}
